@@ -230,7 +230,7 @@ func (m *Machine) split(s, sep *Term) Value {
 		}
 	}
 	maxSep := m.eng.cfg.SliceBound
-	if maxSep < 2 {
+	if maxSep < 2 && sep.IsConst() && (sep.sv == ":" || sep.sv == ".") {
 		maxSep = 2 // CAIP-10 account ids and "type.pubkey.signature" proofs have two separators
 	}
 	var parts []*Term
